@@ -157,7 +157,9 @@ def gen(prop, seed, tier, shards=8, sub=None, extra=None):
     os.makedirs(out, exist_ok=True)
     t = time.time()
     cmd = [BIN, "gen", prop if not sub else prop + ":" + sub, "--seed", str(seed), "--tier", tier, "--out", out, "--shards", str(shards)] + (extra or [])
-    p = sh(cmd, cwd=ROOT, timeout=7200, check=False)
+    genv = {"CWE_CHECKER_BIN": CLI_BIN, "CWE_CHECKER_SRC": os.path.join(REPO, "src"),
+            "VERIF_SCRATCH": os.path.join(BUILD, "cli_inputs", prop)}
+    p = sh(cmd, cwd=ROOT, timeout=7200, check=False, env=genv)
     if p.returncode != 0:
         raise ToolError("generator failed (%d): %s\n%s" % (p.returncode, " ".join(cmd), p.stdout[-4000:]))
     meta = json.load(open(os.path.join(out, "meta.json")))
